@@ -1362,10 +1362,12 @@ class NewObjEx(Opcode):
         kwargs = interpreter.stack.pop()
         args = interpreter.stack.pop()
         class_type = interpreter.stack.pop()
+        # the keyword-argument dict is passed on as `**kwargs`; ast.Call.keywords must be a list of ast.keyword nodes
+        keywords = [ast.keyword(arg=None, value=kwargs)]
         if isinstance(args, ast.Tuple):
-            call = ast.Call(class_type, list(args.elts), kwargs)
+            call = ast.Call(class_type, list(args.elts), keywords)
         else:
-            call = ast.Call(class_type, [ast.Starred(args)], kwargs)
+            call = ast.Call(class_type, [ast.Starred(args)], keywords)
         # like REDUCE, the call runs whether or not its value is used: bind it so it always reaches the AST
         var_name = interpreter.new_variable(call)
         interpreter.stack.append(ast.Name(var_name, ast.Load()))
